@@ -5,7 +5,8 @@
 //! No expected value is computed here.
 use bio::alphabets::{dna, Alphabet};
 use bio::data_structures::bwt::{bwt, less, Less, Occ, BWT};
-use bio::data_structures::fmindex::{BiInterval, FMDIndex, FMIndex};
+use bio::data_structures::fmindex::{BackwardSearchResult, BiInterval, FMDIndex, FMIndex, FMIndexable, Interval};
+use std::borrow::Borrow;
 use bio::data_structures::suffix_array::suffix_array;
 use bio_verif_harness::{bytes, usizes, Log, Rng};
 use serde_json::{json, Value};
@@ -76,17 +77,49 @@ fn run_one(log: &mut Log, tag: &str, seqs: &[Vec<u8>], k: u32, job: &Job) {
     }
     let (sa, b, l, o) = parts.unwrap();
     let fmd = FMDIndex::from(FMIndex::new(&b, &l, &o));
-    for (p, lmin) in &job.smems {
-        log.call("smems", json!({"p": bytes(p), "l": lmin}), || {
-            let res: Vec<Value> = (0..p.len())
-                .map(|i| Value::Array(fmd.smems(p, i, *lmin).iter().map(|m| match_json(m, &sa)).collect()))
-                .collect();
-            json!({ "res": res })
+    // every third run: the owned index goes through a Serialize/Deserialize round trip after the smems
+    // events; all_smems, the extension chains and the plain backward searches are asked of the copy
+    let serde = (seqs.len() + seqs[0].len() + job.smems.len() + k as usize) % 3 == 0;
+    events(log, &fmd, &sa, job, 1);
+    if serde {
+        let mut back: Option<FMDIndex<BWT, Less, Occ>> = None;
+        let r = log.call("serde", json!({}), || {
+            let owned = FMDIndex::from(FMIndex::new(b.clone(), l.clone(), o.clone()));
+            back = Some(serde_json::from_str(&serde_json::to_string(&owned).unwrap()).unwrap());
+            json!({})
         });
+        if r["st"] == "ok" {
+            events(log, &back.unwrap(), &sa, job, 2);
+            log.oblige("serde_roundtrip_fmdindex");
+        }
+    } else {
+        events(log, &fmd, &sa, job, 2);
+    }
+}
+
+/// part 1: smems; part 2: all_smems, extension chains, backward_search (the FMIndexable method of the
+/// FMD index) with the pattern handed over through iterators of different kinds
+fn events<B: Borrow<BWT>, L: Borrow<Less>, O: Borrow<Occ>>(
+    log: &mut Log,
+    fmd: &FMDIndex<B, L, O>,
+    sa: &Vec<usize>,
+    job: &Job,
+    part: u8,
+) {
+    if part == 1 {
+        for (p, lmin) in &job.smems {
+            log.call("smems", json!({"p": bytes(p), "l": lmin}), || {
+                let res: Vec<Value> = (0..p.len())
+                    .map(|i| Value::Array(fmd.smems(p, i, *lmin).iter().map(|m| match_json(m, sa)).collect()))
+                    .collect();
+                json!({ "res": res })
+            });
+        }
+        return;
     }
     for (p, lmin) in &job.all {
         log.call("all_smems", json!({"p": bytes(p), "l": lmin}), || {
-            let ms: Vec<Value> = fmd.all_smems(p, *lmin).iter().map(|m| match_json(m, &sa)).collect();
+            let ms: Vec<Value> = fmd.all_smems(p, *lmin).iter().map(|m| match_json(m, sa)).collect();
             json!({ "ms": ms })
         });
     }
@@ -98,17 +131,36 @@ fn run_one(log: &mut Log, tag: &str, seqs: &[Vec<u8>], k: u32, job: &Job) {
                 fmd.init_interval()
             } else {
                 let iv = fmd.init_interval_with(*start as u8);
-                ivs.push(iv_json(&iv, &sa));
+                ivs.push(iv_json(&iv, sa));
                 iv
             };
             // the chain goes on past empty intervals: extending the (empty) bi-interval of a string
             // that does not occur gives the empty bi-interval of the extended string
             for &(d, c) in ops {
                 cur = if d == 0 { fmd.backward_ext(&cur, c) } else { fmd.forward_ext(&cur, c) };
-                ivs.push(iv_json(&cur, &sa));
+                ivs.push(iv_json(&cur, sa));
             }
             json!({ "ivs": ivs })
         });
+    }
+    for (pi, (p, _)) in job.smems.iter().take(3).enumerate() {
+        let it = (pi + p.len()) % 4;
+        log.call("bsearch", json!({"p": bytes(p), "it": it}), || {
+            let res = match it {
+                0 => fmd.backward_search(p.iter()),
+                1 => fmd.backward_search(p.iter().filter(|_| true)),
+                2 => fmd.backward_search(p.chunks(2).flatten()),
+                _ => fmd.backward_search(p.iter().flat_map(|c| std::iter::once(c))),
+            };
+            let (kind, iv, len) = match res {
+                BackwardSearchResult::Complete(iv) => (2, iv, p.len()),
+                BackwardSearchResult::Partial(iv, l) => (1, iv, l),
+                BackwardSearchResult::Absent => (0, Interval { lower: 0, upper: 0 }, 0),
+            };
+            let pos = if kind == 0 { vec![] } else { iv.occ(sa) };
+            json!({"kind": kind, "lower": iv.lower, "upper": iv.upper, "len": len, "pos": usizes(&pos)})
+        });
+        log.oblige("fmd_backward_search_iterator_kinds");
     }
 }
 
@@ -453,6 +505,83 @@ pub fn drive(log: &mut Log) {
             }
             run_one(log, "run", &seqs, k, &job);
             log.oblige("bwt_run_longer_than_occ_rate");
+        }
+    }
+
+    // (e) all_smems (and smems) with every minimum length l in 1..=6 on small sets: two overlapping
+    //     sequences and patterns glued from their pieces (SMEMs that overlap near the pattern end)
+    for v in 0..log.opts.n(40, 200) {
+        case += 1;
+        if !log.mine(case) {
+            continue;
+        }
+        let mut rng = Rng::new(seed, 24, case);
+        let alpha: &[u8] = if v % 3 == 0 { b"AC" } else { b"ACGT" };
+        let (la, lb) = (rng.range(3, 6) as usize, rng.range(3, 6) as usize);
+        let a = rng.seq(la, alpha);
+        // second sequence: starts with a suffix of the first one
+        let ov = rng.range(1, (la - 1) as i64) as usize;
+        let mut b2 = a[la - ov..].to_vec();
+        b2.extend(rng.seq(lb, alpha));
+        let seqs = vec![a.clone(), b2.clone()];
+        let mut job = Job { smems: vec![], all: vec![], paths: vec![] };
+        let mut pats: Vec<Vec<u8>> = vec![];
+        let mut glued = a.clone();
+        glued.extend_from_slice(&b2[ov..]); // a and b2 overlap in `glued`
+        pats.push(glued.clone());
+        pats.push(dna::revcomp(&glued));
+        let mut q = glued.clone();
+        let qi = rng.below(q.len() as u64) as usize;
+        q[qi] = *rng.pick(alpha);
+        pats.push(q);
+        for p in &pats {
+            for l in 1..=6usize {
+                job.all.push((p.clone(), l));
+            }
+            job.smems.push((p.clone(), 1 + (v as usize % 6)));
+        }
+        run_one(log, "alll", &seqs, [1u32, 2, 3][(v % 3) as usize], &job);
+        log.oblige("all_smems_min_len_1_to_6");
+    }
+
+    // (f) periodic reads with exactly 255 / 256 / 257 repeats: bi-intervals of exactly 255..257 rows whose
+    //     suffixes are all preceded by the same symbol
+    for &copies in &[255usize, 256, 257] {
+        for (ui, unit) in [&b"AC"[..], &b"A"[..]].iter().enumerate() {
+            if !th && ui == 1 && copies != 256 {
+                continue;
+            }
+            case += 1;
+            if !log.mine(case) {
+                continue;
+            }
+            let mut rng = Rng::new(seed, 25, case);
+            let mut read: Vec<u8> = vec![];
+            for _ in 0..copies {
+                read.extend_from_slice(unit);
+            }
+            let run_of = |m: usize| -> Vec<u8> { (0..m * unit.len()).map(|i| unit[i % unit.len()]).collect() };
+            let mut job = Job { smems: vec![], all: vec![], paths: vec![] };
+            job.smems.push((run_of(3), 1));
+            let mut p = run_of(4);
+            p.push(b'G');
+            job.smems.push((p.clone(), 2));
+            job.all.push((p, 1));
+            // chains: single symbols of the unit from the whole interval (intervals of `copies` rows), then on
+            for &dir in &[0u8, 1u8] {
+                let steps = rng.range(4, 12) as usize;
+                let ops: Vec<(u8, u8)> = (0..steps)
+                    .map(|i| {
+                        let j = if dir == 0 { unit.len() - 1 - (i % unit.len()) } else { i % unit.len() };
+                        (dir, unit[j])
+                    })
+                    .collect();
+                job.paths.push((-1, ops.clone()));
+                let c0 = if dir == 0 { unit[unit.len() - 1] } else { unit[0] };
+                job.paths.push((c0 as i32, ops[1..].to_vec()));
+            }
+            run_one(log, "per", &vec![read], [3u32, 65][(copies % 2) as usize], &job);
+            log.oblige("interval_of_255_256_257_rows_one_preceding_symbol");
         }
     }
 
